@@ -52,7 +52,26 @@ def gen(tier, seed):
     return progs, stats
 
 
-def run_faults(c, progs, source):
+def sized(tier, rnd):
+    """depth/size families: limits and counters inside the engine (call depth, scope depth, nesting of handlers) sit at
+    particular sizes, so sizes around powers of two are enumerated rather than sampled"""
+    depths = [3, 63, 64, 65, 127, 128, 129, 255, 256, 257, 511, 512, 513, 600, 1023, 1024, 1025] + ([2000, 2500] if tier == "thorough" else [])
+    bottoms = ["cb(0)", "throw(1)", "undefined_at_bottom", "cb(0) / 0"]
+    out = []
+    for d in depths:
+        b = rnd.choice(bottoms) if tier == "quick" else None
+        for bot in ([b] if b else bottoms):
+            out.append("def r(n) { if (n > 0) { 1 + r(n - 1) } else { %s } }; r(%d)" % (bot, d))
+        out.append("def ev(n) { if (n > 0) { od(n - 1) } else { cb(2) } }; def od(n) { if (n > 0) { ev(n - 1) } else { cb(1) } }; try { ev(%d) } catch(e) { print(\"c\") }; ev(3)" % d)
+        out.append("var l = fun(f, n) { if (n > 0) { f(f, n - 1) } else { cb(n) } }; l(l, %d)" % d)
+    for d in (3, 20, 60, 120) + ((250,) if tier == "thorough" else ()):
+        out.append("var x = 0; " + "{ var a = 1; " * d + "x = cb(5)" + " }" * d + "; x")
+        out.append("var x = 0; " + "try { " * d + "x = cb(5)" + " } catch(e) { throw(e) } finally { x += 1 }" * d + "; x")
+        out.append("def n0() { cb(1) }; " + "".join("def n%d() { n%d() }; " % (k, k - 1) for k in range(1, d)) + "n%d()" % (d - 1))
+    return out
+
+
+def run_faults(c, progs, source, fuel=E.FUEL):
     counts, base = count_callbacks(progs)
     seen = 0
     for i, p in enumerate(progs):
@@ -79,7 +98,7 @@ def run_faults(c, progs, source):
         judge_shape(c, progs[i], fl, r)
         if "tree" in r:
             trees.append(r["tree"]); flags.append(fl); keys.append((i, fl))
-    model = E.run_model("mech", trees, hints=False, flags=flags)
+    model = E.run_model("mech", trees, hints=False, flags=flags, fuel=fuel)
     nontrivial = set()
     for (i, fl), m in zip(keys, model):
         if m is None:
@@ -114,6 +133,9 @@ def check(tier, seed):
         c.broken_ties.append(("correspondence", "eval: mechanism model does not build", E.bins().get("mech_err")))
     corpus = E.corpus("C09.txt")
     run_faults(c, corpus, "corpus")
+    sz = sized(tier, random.Random(seed * 31 + 5))
+    run_faults(c, sz, "sized", fuel=40000)
+    c.dist["sized_programs"] = len(sz)
     progs, stats = gen(tier, seed)
     counts = run_faults(c, progs, "generated")
     c.dist["programs"] = len(progs) + len(corpus)
